@@ -451,3 +451,124 @@ func H_C03_symstr() {
 		}
 	}
 }
+
+// ---- named and pointer-to-named variants of every primitive kind ----
+
+type myStr string
+type myBool bool
+type myInt64 int64
+type myUint64 uint64
+type myFloat64 float64
+type myDur time.Duration
+
+// H_C03_named: every kind of primitive setting into named variants of string / bool / int64 /
+// uint64 / float64 / time.Duration targets (plain and behind a pointer): the call returns (panic,
+// step-bound and allocation monitors) and a nil error means the exact value arrived.
+func H_C03_named() {
+	c := ucfg.New()
+	i, u, b := verif.Int64("i"), verif.Uint64("u"), verif.Bool("b")
+	txt := []string{"abc", "", "12", "true", "1s"}[verif.Choice("text", 5)]
+	src := verif.Choice("src", 4)
+	switch src {
+	case 0:
+		c.SetString("v", -1, txt)
+	case 1:
+		c.SetBool("v", -1, b)
+	case 2:
+		c.SetInt("v", -1, i)
+	case 3:
+		c.SetUint("v", -1, u)
+	}
+	ptr := verif.Choice("pointer", 2) == 1
+	target := verif.Choice("target", 6)
+	lbl := "C03/named/target=" + itoa(target) + "/src=" + itoa(src)
+	verif.AllocLimit(1 << 16)
+	verif.NoPanic("C03/named: Unpack panics/target="+itoa(target), func() {
+		switch target {
+		case 0:
+			var got myStr
+			var err error
+			if ptr {
+				var t pbox[myStr]
+				if err = c.Unpack(&t); err == nil && t.V != nil {
+					got = *t.V
+				}
+			} else {
+				var t box[myStr]
+				err = c.Unpack(&t)
+				got = t.V
+			}
+			if err == nil && src == 0 {
+				verif.Assert(string(got) == txt, lbl)
+			}
+		case 1:
+			var got myBool
+			var err error
+			if ptr {
+				var t pbox[myBool]
+				if err = c.Unpack(&t); err == nil && t.V != nil {
+					got = *t.V
+				}
+			} else {
+				var t box[myBool]
+				err = c.Unpack(&t)
+				got = t.V
+			}
+			if err == nil && src == 1 {
+				verif.Assert(bool(got) == b, lbl)
+			}
+		case 2:
+			var got myInt64
+			var err error
+			if ptr {
+				var t pbox[myInt64]
+				if err = c.Unpack(&t); err == nil && t.V != nil {
+					got = *t.V
+				}
+			} else {
+				var t box[myInt64]
+				err = c.Unpack(&t)
+				got = t.V
+			}
+			if err == nil && src == 2 {
+				verif.Assert(int64(got) == i, lbl)
+			}
+			if err == nil && src == 3 {
+				verif.Assert(verif.And(got >= 0, uint64(got) == u), lbl)
+			}
+		case 3:
+			var got myUint64
+			var err error
+			if ptr {
+				var t pbox[myUint64]
+				if err = c.Unpack(&t); err == nil && t.V != nil {
+					got = *t.V
+				}
+			} else {
+				var t box[myUint64]
+				err = c.Unpack(&t)
+				got = t.V
+			}
+			if err == nil && src == 3 {
+				verif.Assert(uint64(got) == u, lbl)
+			}
+			if err == nil && src == 2 {
+				verif.Assert(verif.And(i >= 0, uint64(got) == uint64(i)), lbl)
+			}
+		case 4:
+			var t box[myFloat64]
+			err := c.Unpack(&t)
+			if err == nil && src == 2 {
+				verif.Assert(float64(t.V) == float64(i), lbl)
+			}
+		case 5:
+			var t box[myDur]
+			err := c.Unpack(&t)
+			// a named duration is an integer type of its own: the number arrives as that integer
+			if err == nil && src == 2 {
+				verif.Assert(int64(t.V) == i, lbl)
+			}
+		}
+	})
+	verif.Reach("named target")
+}
